@@ -51,8 +51,10 @@ pub const MAGIC_REV: u64 = u64::from_le_bytes(MAGIC.to_be_bytes());
 
 /// Compute the padding needed for alignment, that is, the smallest
 /// number such that `((value + pad_align_to(value, align_to) & (align_to - 1) == 0`.
+///
+/// Zero-sized types report an alignment unit of zero, which requires no padding.
 pub fn pad_align_to(value: usize, align_to: usize) -> usize {
-    value.wrapping_neg() & (align_to - 1)
+    value.wrapping_neg() & align_to.saturating_sub(1)
 }
 
 #[test]
